@@ -100,6 +100,7 @@ func zzC11_udp_nested() {
 	b, _ := reg.MarshalWithEncoder(coder.DefaultCoder)
 	_ = cc.Process(nil, append([]byte(nil), b...))
 	symWaitUntil(func() bool { return odone })
+	symIdle()
 	symAssert(oerr == nil && first == 1, "the observation is registered and its first notification delivered once")
 
 	answered := 1 // index into s.written of the next nested request the peer has not answered yet
@@ -176,6 +177,7 @@ func zzC11_udp_nested() {
 		}
 		return true
 	})
+	symIdle() // the responses of the handlers that have just returned are written by the processing goroutines
 	symCover("all-handled")
 	anyNested := false
 	for i, x := range st {
